@@ -99,6 +99,8 @@ pub struct Unit {
     pub pathrename: Vec<(String, String)>,
     pub methodval: Vec<(String, String)>,
     pub inlinecall: Vec<String>,
+    pub constfn: Vec<(String, String)>,
+    pub argcall: Vec<(String, String, String)>,
     pub strlits: bool,
 }
 
@@ -342,6 +344,8 @@ pub fn parse_unit(text: &str) -> Unit {
             "pathrename" => u.pathrename.push((words[0].clone(), words[1].clone())),
             "strlits" => u.strlits = true,
             "inlinecall" => u.inlinecall.extend(words),
+            "constfn" => u.constfn.push((words[0].clone(), words[1].clone())),
+            "argcall" => u.argcall.push((words[0].clone(), words[1].clone(), words[2].clone())),
             "methodval" => u.methodval.push((words[0].clone(), words[1].clone())),
             "poolcall" => u.poolcall.push((words[0].clone(), words[1].clone(), words[2].clone())),
             "lockinv" => u.lockinv.push((words[0].clone(), words[1..].join(" "))),
